@@ -46,7 +46,9 @@
    the explorer's own observers.  scenario.Runner.wireObservers registers the annealer as such an
    observer, and SimpleAnnealer.ObserveEvent relays the event (adding CurrentIteration) to the
    annealer's observers: that is [EvCooling k].  All other relayed Explorer/Model events are outside
-   the property and are not part of the trace (the harness drops them).
+   the property and are not part of the trace.  [EvCooling], [LogError] and [LogInfo] document what the
+   code does but are NOT compared with the implementation (AnnealLoopCorr.is_compared): the property
+   does not constrain notes and log lines, and a reworded note must not raise an alarm.
 
    Iteration numbers are the values of the field [currentIteration].  The field is set to 0 only
    by [Initialise()] (builder) and is copied by [DeepClone()]; [Anneal()] never resets it.  The
